@@ -1,14 +1,15 @@
 #!/bin/sh
 # usage: tools/seed_eval.sh <seeded dir name> <property> [tier]   -- applies seeded/<name>/patch.diff to /repo, runs ./check <property>, undoes it
-set -u
 name=$1; prop=$2; tier=${3:-quick}
 cd "$(dirname "$0")/.." || exit 2
 [ -z "$(git -C /repo status --porcelain --untracked-files=no)" ] || { echo "/repo has uncommitted changes"; exit 2; }
+trap 'git -C /repo checkout -- .' EXIT INT TERM
 git -C /repo apply "$PWD/seeded/$name/patch.diff" || { echo "patch does not apply"; exit 2; }
-./check $prop --tier $tier > /tmp/seed_$name_$prop.log 2>&1
+log=/tmp/seed_${name}_${prop}.log
+./check $prop --tier $tier > $log 2>&1
 rc=$?
 git -C /repo checkout -- .
 echo "seed=$name property=$prop tier=$tier exit=$rc"
-grep -m3 -A1 "^VIOLATION" /tmp/seed_$name_$prop.log | cut -c1-400
-tail -1 /tmp/seed_$name_$prop.log | cut -c1-300
+grep -m3 -A1 "^VIOLATION" $log | cut -c1-400
+tail -1 $log | cut -c1-300
 exit 0
